@@ -27,6 +27,10 @@ CHECKS = {
             "Lean 4 structural (mutual) induction over configuration trees for an arbitrary environment (resolve/apply are parameters) + differential correspondence on a synthetic importable package + independent recursive evaluator as oracle",
             "Plain data unchanged, each __type__ node called exactly once in the documented bottom-up order with __args__/remaining items, and the error location being the path of the first failing node with exactly the earlier calls made are Lean theorems for every finite tree and every environment; the model is tied to mapping.py by translating generated trees with real importable factories on both sides.",
             "Trusted: Lean kernel + standard axioms (this file uses none beyond propext/Quot.sound if any); model (sampling correspondence); import machinery enters as the parameter resolve and is exercised for real by the correspondence."),
+    "C14": ("§6 C14",
+            "Lean 4 proof of soundness of a re-implemented toposort (layers: each key once, dependencies in strictly earlier layers, for every in-layer order) and of the validation/digest loop + differential correspondence with substituted entry points + independent oracle",
+            "Order respects every before/after constraint between installed plugins (for any order inside a toposort layer), absent names never enter the table, unknown sections fail before any digest, required-missing fails, otherwise each present section is digested once in order and non-None results kept: Lean theorems for any number of plugins; tied to core/config.py + mapping.py by generated plugin sets and configurations.",
+            "Trusted: Lean kernel + standard axioms; model incl. the re-implemented toposort (compared layer by layer with toposort 1.10 on every run); entrypoints API substituted by generated objects."),
 }
 
 PENDING_REASON = "check not built yet in this session (planned: Lean model + proof + correspondence, see DESIGN.md work order); not claimed until its check exists"
